@@ -25,7 +25,42 @@ def run(run, scr, tier, seed, only=None):
         hs = [h for h in hs if any(o in h.name for o in only)]
     run.functions += ['src/lib.rs functionality!{try_sign_with_rng, try_hash_sign_with_rng, try_keygen_with_rng, keygen_from_seed}', 'src/ml_dsa.rs::key_gen']
     run.assumptions += wrapc.TRUSTED + ['"each of the 32 bytes influences the result" is decided as: rnd / xi handed to Sign_internal / KeyGen_internal are exactly the 32 drawn bytes (here) and all 32 are absorbed into the rho\'\' / first keygen transcript (C03/C04 transcript obligations)',
-                                       'OS-RNG convenience wrappers (try_keygen, try_sign, try_hash_sign) are one-line delegations to the *_with_rng functions with &mut OsRng (traits.rs); OsRng itself is outside the claim']
+                                       'OS-RNG convenience wrappers (try_keygen, try_sign, try_hash_sign): shown by E2 skeletons to be single delegating calls with a fresh OsRng value; OsRng / getrandom itself is outside the claim']
+    # E2: the OS-RNG convenience functions are pure delegations to the *_with_rng functions with a fresh OsRng value on every call
+    import mir, skel, e2
+    try:
+        funcs = mir.parse(mir.dump(scr, checked=True))
+        for fn, callee, nargs, passthru in (('KeyGen::try_keygen', 'try_keygen_with_rng', 1, []), ('Signer::try_sign', 'try_sign_with_rng', 4, ['&self', '&message', '&ctx']), ('Signer::try_hash_sign', 'try_hash_sign_with_rng', 5, ['&self', '&message', '&ctx', '&ph'])):
+            ok = False; det = 'not found'
+            if fn in funcs:
+                E, paths = skel.extract(funcs, fn)
+                calls = [c for p in paths for c in p.calls]
+                det = str([(skel.short_callee(c['callee']), c['args']) for c in calls])[:300]
+                if len(paths) == 1 and len(calls) == 1:
+                    c = calls[0]
+                    params = [nm for _, nm in sorted((l, funcs[fn].debug.get(l, l)) for l, _ in funcs[fn].params)]
+                    rng_args = [a for a, ty in zip(c['args'], c['argtys']) if 'OsRng' in ty]
+                    others = [a for a, ty in zip(c['args'], c['argtys']) if 'OsRng' not in ty]
+                    ok = (c['callee'].endswith(callee) and len(c['args']) == nargs and len(rng_args) == 1 and rng_args[0].startswith('&_')
+                          and paths[0].ret_s == c['result'] and others == passthru)
+                run.functions.append('MIR ' + fn)
+            run.add_query({'name': f'{fn}: exactly one call, to {callee} with a fresh local OsRng, result returned unchanged (no caching, every call draws anew)', 'engine': 'E2 skeleton', 'verdict': 'holds' if ok else 'sat', 'detail': det})
+            if not ok:
+                run.inconclusive.append(f'{fn}: OS-RNG wrapper is not a plain delegation: {det}')
+        for setn in ('ml_dsa_44', 'ml_dsa_65', 'ml_dsa_87'):
+            fn = f'{setn}::try_keygen'
+            ok = False; det = 'not found'
+            if fn in funcs:
+                E, paths = skel.extract(funcs, fn)
+                calls = [c for p in paths for c in p.calls]
+                det = str([c['callee'] for c in calls])[:200]
+                ok = len(paths) == 1 and len(calls) == 1 and calls[0]['callee'].endswith('KeyGen>::try_keygen') and paths[0].ret_s == calls[0]['result']
+                run.functions.append('MIR ' + fn)
+            run.add_query({'name': f'{fn}: delegates to KG::try_keygen', 'engine': 'E2 skeleton', 'verdict': 'holds' if ok else 'sat', 'detail': det})
+            if not ok:
+                run.inconclusive.append(f'{fn}: not a plain delegation: {det}')
+    except (e2.Refuse, vlib.BuildError) as ex:
+        run.inconclusive.append('E2 part of C12 refused: ' + str(ex)[:300])
     results = vlib.run_kani(scr, hs, jobs=6)
     partials = set()
     for r in results:
